@@ -25,6 +25,8 @@ mod os;
 mod os;
 
 use dispatcher::*;
+#[cfg(feature = "verif-hooks")]
+pub use dispatcher::verif_stepper;
 use executor::*;
 pub use imp::*;
 use internal_events::*;
